@@ -6,3 +6,5 @@ import Signac.Wire
 import Signac.PyVal
 import Signac.Extracted
 import Signac.Properties.C01
+import Signac.Properties.C10
+import Signac.Properties.C18
